@@ -118,10 +118,10 @@ func TestSelfOracles(t *testing.T) {
 		stats.Class("self:rings compared")
 		stats.Try(rt, "TestSelfOracles", c, func() error {
 			for _, q := range queryPoints(c, b) {
-				if !strictlyInside(b, q) || boxBoundaryDist(b, q) <= dmin || pathNear(r, q, dmin) {
+				if !strictlyInside(b, q) || boxBoundaryDist(b, q) <= an.dmin || pathNear(r, q, an.dmin) {
 					continue
 				}
-				got, usable := chordMember(b, path, c.O, eps, q, dmin)
+				got, usable := chordMember(b, path, c.O, eps, q, an.dmin)
 				if !usable {
 					continue
 				}
